@@ -1,7 +1,7 @@
 #!/bin/bash
 # dev helper: extract + verus + pretty errors
 u=$1; shift
-cd /verif && python3 tools/extract.py $u || exit 2
+cd /verif && python3 tools/extract.py $u || { echo "EXTRACTION FAILED"; exit 2; }
 verus build/$u.rs --output-json --time --multiple-errors 5 "$@" -- --error-format=json 2>build/$u.err >build/$u.out
 python3 - "$u" <<'PY'
 import json,sys
